@@ -25,6 +25,15 @@ type DB struct {
 
 var ErrInvalidMagic = errors.New("invalid magic")
 
+const (
+	// minHeaderRestLen is the smallest valid value of the header length field: value size (8),
+	// number of buckets (4) and version (1); the metadata section may be empty.
+	minHeaderRestLen = 8 + 4 + 1
+	// maxHeaderRestLen is the largest header the writer can produce: the fixed fields plus
+	// MaxNumKVs pairs of maximal key and value size.
+	maxHeaderRestLen = 8 + 4 + 1 + 1 + indexmeta.MaxNumKVs*(1+indexmeta.MaxKeySize+1+indexmeta.MaxValueSize)
+)
+
 // Open returns a handle to access a compactindex.
 //
 // The provided stream must start with the Magic byte sequence.
@@ -43,6 +52,9 @@ func Open(stream io.ReaderAt) (*DB, error) {
 		return nil, ErrInvalidMagic
 	}
 	size := binary.LittleEndian.Uint32(magicAndSize[8:])
+	if size < minHeaderRestLen || size > maxHeaderRestLen {
+		return nil, fmt.Errorf("invalid header length %d", size)
+	}
 	fileHeaderBuf := make([]byte, 8+4+size)
 	n, readErr = stream.ReadAt(fileHeaderBuf, 0)
 	if n < len(fileHeaderBuf) {
